@@ -60,8 +60,30 @@ let parse_history line =
   | _ -> failwith ("bad history line: " ^ line)
 
 (* ---------- exploration: breadth first over model states, to a fixpoint ---------- *)
-let explore ?(mode="L") ?(alt_paths=false) prim cfg max_states out =
+(* polls with a waker shared between futures (one task polling several futures: join!, select!):
+   the models' [enabled] gives every future two wakers of its own (2f, 2f+1); in shared-waker
+   exploration every poll may also be made with waker SHARED_WAKER.  (operation code, position
+   of the waker id) per primitive. *)
+let shared_waker = n_of_string "40"
+let poll_ops = function
+  | "event" | "mutex" | "semaphore" -> [1, 2]
+  | "mpmc" -> [1, 2; 5, 2; 31, 2]
+  | "oneshot" | "timer" -> [3, 2]
+  | "state" -> [4, 2]
+  | _ -> []
+let with_shared_wakers prim (ops : coq_N list list) =
+  let po = poll_ops prim in
+  let extra = List.filter_map (fun o ->
+    match o with
+    | c :: _ when List.mem_assoc (int_of_n c) po && List.length o = 3 ->
+      let i = List.assoc (int_of_n c) po in
+      Some (List.mapi (fun j x -> if j = i then shared_waker else x) o)
+    | _ -> None) ops in
+  ops @ List.sort_uniq compare extra
+
+let explore ?(mode="L") ?(alt_paths=false) ?(shared=false) prim cfg max_states out =
   let m = machine prim in
+  let m = if shared then { m with Base.m_enabled = (fun s -> with_shared_wakers prim (m.Base.m_enabled s)) } else m in
   let s0 = m.Base.m_init cfg in
   let key s = Marshal.to_string (m.Base.m_key s) [Marshal.No_sharing] in
   (* seen: state -> codes of the last operation of the paths whose continuations were emitted.
@@ -385,6 +407,8 @@ let () =
       par_histories prim (nlist cfg) (int_of_string seed) (int_of_string count) (int_of_string len) (int_of_string t) stdout
   | _ :: "linearize" :: h :: o :: _ -> linearize_files h o
   | _ :: "explore" :: prim :: cfg :: max :: _ -> explore prim (nlist cfg) (int_of_string max) stdout
+  | _ :: "explore-sw" :: prim :: cfg :: max :: _ -> explore ~shared:true prim (nlist cfg) (int_of_string max) stdout
+  | _ :: "explore-sw-full" :: prim :: cfg :: max :: _ -> explore ~mode:"A" ~shared:true prim (nlist cfg) (int_of_string max) stdout
   | _ :: "explore-full" :: prim :: cfg :: max :: _ -> explore ~mode:"A" prim (nlist cfg) (int_of_string max) stdout
   | _ :: "random" :: prim :: cfg :: seed :: count :: len :: _ ->
       random_histories prim (nlist cfg) (int_of_string seed) (int_of_string count) (int_of_string len) stdout
